@@ -33,8 +33,8 @@ def sh(cmd, cwd=None, timeout=3600):
 def lean_sources():
     out = []
     for root, _, files in os.walk(LEAN):
-        if ".lake" in root:
-            continue
+        if ".lake" in root or os.sep + "wip" in root:
+            continue   # lean/wip holds statements still being proved; nothing there is imported or claimed
         for f in files:
             if f.endswith(".lean") or f in ("lakefile.toml",):
                 out.append(os.path.join(root, f))
